@@ -144,13 +144,25 @@ Definition face_nbrs (bs : list block) : list (list nat) :=
 Definition memi (i : nat) (l : list nat) : bool := existsb (Nat.eqb i) l.
 Definition fgrow (nb : list (list nat)) (n : nat) (R : list nat) : list nat :=
   filter (fun j => memi j R || existsb (fun i => memi i R) (nth j nb [])) (seq 0 n).
+(** [fgrow] only adds indexes, so an iteration that does not lengthen the list has reached the fixed
+    point: stop there (at most [fuel] = number of blocks rounds are ever needed) *)
 Fixpoint freach (nb : list (list nat)) (n fuel : nat) (R : list nat) : list nat :=
-  match fuel with 0 => R | S f => freach nb n f (fgrow nb n R) end.
+  match fuel with
+  | 0 => R
+  | S f => let R' := fgrow nb n R in if length R' =? length R then R else freach nb n f R'
+  end.
 Definition face_connected_b (bs : list block) : bool :=
   match bs with
   | [] => true
   | _ => length (freach (face_nbrs bs) (length bs) (length bs) [0]) =? length bs
   end.
+
+(** what [face_connected_b] establishes (Proofs/C11_Topo.v, [face_connected_sound]): every block is
+    reached from block 0 through a chain of blocks sharing four vertices *)
+Inductive freachable (bs : list block) : nat -> Prop :=
+| fr_root : 0 < length bs -> freachable bs 0
+| fr_step i j : freachable bs i -> j < length bs ->
+    shares_side (nth j bs []) (nth i bs []) = true -> freachable bs j.
 
 (** * Vertex count *)
 Definition all_vids (bs : list block) : list vid := concat bs.
